@@ -31,13 +31,50 @@ pub enum Producer {
     RoundTrip,
 }
 
+/// A writer that takes at most `step` bytes per call (a legitimate `Write`: callers have to loop).
+pub struct ShortWrites {
+    pub out: Vec<u8>,
+    pub step: usize,
+}
+
+impl std::io::Write for ShortWrites {
+    fn write(&mut self, buf: &[u8]) -> std::io::Result<usize> {
+        let n = buf.len().min(self.step.max(1));
+        self.out.extend_from_slice(&buf[..n]);
+        Ok(n)
+    }
+    fn flush(&mut self) -> std::io::Result<()> {
+        Ok(())
+    }
+}
+
 pub fn ser(m: &DecodedMap) -> Result<Vec<u8>, String> {
     let mut out = vec![];
     match guard(|| m.to_writer(&mut out)) {
-        Ok(Ok(())) => Ok(out),
-        Ok(Err(e)) => Err(format!("to_writer failed: {e}")),
-        Err(p) => Err(format!("to_writer: {p}")),
+        Ok(Ok(())) => {}
+        Ok(Err(e)) => return Err(format!("to_writer failed: {e}")),
+        Err(p) => return Err(format!("to_writer: {p}")),
     }
+    // the same bytes must arrive in a writer that accepts only a few bytes per call
+    if out.len() <= 2048 {
+        let mut w = ShortWrites { out: vec![], step: 1 + out.len() % 13 };
+        match guard(|| m.to_writer(&mut w)) {
+            Ok(Ok(())) => {
+                if w.out != out {
+                    return Err(format!(
+                        "to_writer into a writer that takes {} byte(s) per call wrote {} of {} bytes (or different ones): {:?}",
+                        w.step,
+                        w.out.len(),
+                        out.len(),
+                        String::from_utf8_lossy(&w.out[..w.out.len().min(80)])
+                    ));
+                }
+            }
+            Ok(Err(e)) => return Err(format!("to_writer into a writer with short writes failed: {e}")),
+            Err(p) => return Err(format!("to_writer (short writes): {p}")),
+        }
+    }
+    Ok(out)
 }
 
 pub fn ser_sm(m: &SourceMap) -> Result<Vec<u8>, String> {
